@@ -462,5 +462,5 @@ MUTANTS = [
          new="		new_vector = Vector(new_values, dtype=self._dtype)", rules=["a.permutation"]),
     dict(id="sort-renames-columns-lower", module=_T, old="			new_cols.append(Vector(new_data, dtype=col._dtype, name=col._name))\n\n		return Table(new_cols, name=self._name)",
          new="			new_cols.append(Vector(new_data, dtype=col._dtype, name=str(col._name).lower()))\n\n		return Table(new_cols, name=self._name)", rules=["a.permutation"]),
-    dict(id="twin-rename-indices", module=_T, twin=True, edits=[(_T, "indices", "order", 56)]),
+    dict(id="twin-rename-indices", module=_T, twin=True, edits=[(_T, "indices", "order", 57)]),
 ]
